@@ -117,7 +117,7 @@ pub fn prepare(c: &Case) -> Result<Option<Prepared>, String> {
     }
 }
 
-fn is_backup_name(p: &[u8]) -> bool {
+pub fn is_backup_name(p: &[u8]) -> bool {
     // <name>.~N~
     let b = basename(p);
     if b.len() < 4 || *b.last().unwrap() != b'~' {
